@@ -15,8 +15,18 @@ Oracle (from the statement, independent of the code under test):
   wellformed  the text of every @namespace rule parses back to one @namespace rule with the same prefix and URI
   undeclared  a selector using a prefix that is not declared is rejected (nothing is added / changed); a selector whose prefixes are all
               declared is not refused as undeclared (prefixes are case-sensitive)
+  detached    a detached rule (the slot: a style rule, or the style rules inside a detached @media rule) keeps its pairs, carries a
+              declaration for every namespace URI its selectors use, and its own serialisation re-resolves to the same pairs: read
+              structurally (every name in a namespace is written with a prefix - or unprefixed as the default -, '|name' only for no
+              namespace, '*|name' only for any; one URI per prefix) and parsed again under the namespaces the rule carries - whatever
+              happens to the sheet it came from afterwards
+
+Provenance axis (ROUTES): a selector can enter an attached rule with the sheet text or through the DOM (rule.selectorText,
+selectorList.selectorText, Selector.selectorText, selectorList.appendSelector, rule.cssText). A seed may name a route as sixth element: every
+style rule of sheet A (also inside @media) is then re-written through that route with its own text before the history starts.
 """
 import logging
+import re
 import xml.dom
 
 URIS = ['urn:a', 'urn:b']
@@ -60,6 +70,32 @@ SEEDS = [
     ('/*c*/ @namespace p "urn:a"; @namespace Q "urn:b"; p|e Q|f { left: 0 } *|e, |e { top: 0 }', {'p': 'urn:a', 'Q': 'urn:b'}, [['p|e Q|f'], ['*|e', '|e']], '', True),
     ('@namespace p "urn:a"; p|e { left: 0 }', {'p': 'urn:a'}, [['p|e']], '@namespace r "urn:a";', False),
 ]
+
+# how a selector gets into an attached rule through the DOM (the text route is the seed text itself)
+ROUTES = ['rule.selectorText', 'selectorList.selectorText', 'Selector.selectorText', 'appendSelector', 'rule.cssText']
+
+
+def via_seeds(seeds):
+    """every seed x every DOM route"""
+    return [tuple(s[:5]) + (via,) for s in seeds for via in ROUTES]
+
+
+def rewrite(rule, via):
+    """write the selectors of an attached style rule once more, with their own text, through the DOM route `via`"""
+    if via == 'rule.selectorText':
+        rule.selectorText = rule.selectorText
+    elif via == 'selectorList.selectorText':
+        rule.selectorList.selectorText = rule.selectorText
+    elif via == 'Selector.selectorText':
+        for sel in list(rule.selectorList):
+            sel.selectorText = sel.selectorText
+    elif via == 'appendSelector':
+        for text in [sel.selectorText for sel in rule.selectorList]:
+            rule.selectorList.appendSelector(text)      # an equal selector is replaced by the new object
+    elif via == 'rule.cssText':
+        rule.cssText = rule.cssText
+    else:
+        raise KeyError(via)
 
 
 def _nofetch(url):
@@ -170,6 +206,88 @@ def mapping(sheet):
         return {('<error>', type(e).__name__)}
 
 
+def slot_rules(slot):
+    """the style rules a detached rule consists of"""
+    if slot is None:
+        return []
+    if slot.typeString == 'STYLE_RULE':
+        return [slot]
+    if slot.typeString == 'MEDIA_RULE':
+        return [x for x in slot.cssRules if x.type == x.STYLE_RULE]
+    return []
+
+
+def own_namespaces(rule):
+    """prefix -> URI a detached style rule carries (the namespaces its selector list answers with while no sheet is there)"""
+    try:
+        return dict(rule.selectorList._namespaces.items())
+    except Exception as e:
+        return {'<error>': type(e).__name__}
+
+
+def snapshot_conflict(rule):
+    """signature of the recorded finding C15-detached-stale-prefix-snapshots: two selectors of a detached rule carry namespace snapshots
+    that bind one prefix to different URIs (they were written before and after the sheet re-used that prefix). None or a message"""
+    seen = {}
+    for sel in rule.selectorList:
+        try:
+            snap = dict(sel._namespaces.items())
+        except Exception:
+            return None
+        for p, u in snap.items():
+            if seen.setdefault(p, (u, sel.selectorText))[0] != u:
+                return (f'the selectors carry snapshots that disagree on prefix {p!r}: {seen[p][1]!r} was written when it meant {seen[p][0]!r}, '
+                        f'{sel.selectorText!r} when it meant {u!r}')
+    return None
+
+
+_NAME = re.compile(r'(?<![\w|*:])(?:(\w+|\*)?(\|))?(\w+|\*)')
+
+
+def written_forms(text):
+    """the names of a serialised selector of the pool in document order, read without any parser of the code under test:
+    ('pre', prefix) | ('any',) | ('none',) | ('plain',) each with the name and whether it is an attribute name"""
+    out = []
+    for m in _NAME.finditer(text):
+        attr = text[:m.start()].rstrip().endswith('[')
+        if m.group(2) is None:
+            form = ('plain',)
+        elif m.group(1) is None:
+            form = ('none',)
+        elif m.group(1) == '*':
+            form = ('any',)
+        else:
+            form = ('pre', m.group(1))
+        out.append((form, m.group(3), attr))
+    return out
+
+
+def structural_mismatch(rule):
+    """None if the text of every selector of the rule denotes the pairs the selector holds under SOME binding prefix -> URI, the same for
+    the whole rule (unprefixed type names: the default namespace of that binding, or any namespace if it has none); else a message"""
+    bind = {}     # prefix ('' = default) -> URI
+    for sel in rule.selectorList:
+        text = sel.selectorText
+        forms = [f for f in written_forms(text) if not (f[2] and f[0] == ('plain',))]      # unprefixed attribute names carry no pair
+        pairs = pairs_of(sel)
+        if [f[1] for f in forms] != [nm for _, nm in pairs]:
+            return f'{text!r} names {[f[1] for f in forms]}, the selector holds {pairs}'
+        for (form, nm, attr), (uri, _) in zip(forms, pairs):
+            if uri == ANY:
+                ok = form == ('any',) or (form == ('plain',) and bind.setdefault('', ANY) == ANY)
+            elif uri == '':
+                ok = form == ('none',)
+            elif form == ('plain',):
+                ok = not attr and bind.setdefault('', uri) == uri
+            else:
+                ok = form[0] == 'pre' and bind.setdefault(form[1], uri) == uri
+            if not ok:
+                return f'{text!r} writes {nm!r} as {form}, the selector holds {(uri, nm)!r}' + (f' (bindings so far {bind})' if bind else '')
+    # (two prefixes for one URI are fine here: a selector written before a re-binding keeps the prefix of its own snapshot once detached;
+    #  'one prefix per URI' is said of a sheet's mapping)
+    return None
+
+
 class State:
     def __init__(self):
         self.A = self.B = None
@@ -208,7 +326,8 @@ class Model:
     def new_state(self, seed):
         import cssutils
         seed = SEEDS[seed] if isinstance(seed, int) else seed
-        ta, decl, sels, tb, raising = seed
+        ta, decl, sels, tb, raising = seed[:5]
+        via = seed[5] if len(seed) > 5 else None
         st = State()
         p = cssutils.CSSParser(fetcher=_nofetch)
         st.A = p.parseString(ta)
@@ -221,6 +340,17 @@ class Model:
         else:
             for r, keys in zip(rules, sels):
                 st.expected[id(r)] = pairset(expect_pairs(k, decl) for k in keys)
+            if via:
+                for r in rules:
+                    try:
+                        rewrite(r, via)
+                    except Exception as e:
+                        st.seed_problem = f'seed text {ta!r}: writing {r.selectorText!r} once more through {via} raised {type(e).__name__}: {e}'
+                        break
+                    if rule_pairs(r) != st.expected[id(r)]:
+                        st.seed_problem = (f'seed text {ta!r}: {r.selectorText!r} written once more through {via} holds {rule_pairs(r)}, '
+                                           f'the text denotes {st.expected[id(r)]}')
+                        break
         st.keep.append(rules)
         return st
 
@@ -234,7 +364,8 @@ class Model:
                     [(r.prefix, r.namespaceURI) for r in ns_rules(s)])
         slot = None
         if st.slot is not None:
-            slot = (st.slot.typeString, st.slot.cssText, rule_pairs(st.slot) if st.slot.typeString == 'STYLE_RULE' else None)
+            slot = (st.slot.typeString, st.slot.cssText, rule_pairs(st.slot) if st.slot.typeString == 'STYLE_RULE' else None,
+                    [sorted(own_namespaces(r).items()) for r in slot_rules(st.slot)])
         return repr((one(st.A), one(st.B), slot))
 
     def abstract(self, st):
@@ -514,11 +645,33 @@ class Model:
                      f'(before: {sorted(pre["map" + nm], key=repr)})', sheet=nm, declare=(op[1], op[2]))
         for name, sheet in (('A', st.A), ('B', st.B)):
             self.check_sheet(st, name, sheet, op, pre, fail)
-        if st.slot is not None and st.slot.typeString == 'STYLE_RULE' and id(st.slot) in st.expected:
-            got = rule_pairs(st.slot)
-            if got != st.expected[id(st.slot)]:
-                fail('a detached rule keeps its (namespace URI, local name) pairs', f'detached {st.slot.selectorText!r}: pairs {got}, written as {st.expected[id(st.slot)]}')
+        for r in slot_rules(st.slot):
+            if id(r) in st.expected:
+                self.check_detached(r, st.expected[id(r)], fail)
         return outcome, fails
+
+    def check_detached(self, r, want, fail):
+        """the clauses of a detached style rule (the slot itself or a style rule inside a detached @media rule)"""
+        got = rule_pairs(r)
+        if got != want:
+            fail('a detached rule keeps its (namespace URI, local name) pairs', f'detached {r.selectorText!r}: pairs {got}, written as {want}')
+            return
+        own = own_namespaces(r)
+        stale = snapshot_conflict(r)
+        used = sorted({u for ps in want for u, _ in ps if u not in (ANY, '')})
+        missing = [u for u in used if u not in own.values()]
+        if missing:
+            fail('a detached rule carries a declaration for every namespace URI its selectors use',
+                 f'detached {r.selectorText!r} holds {want}; the namespaces it carries {own} lack {missing}' + (f'; {stale}' if stale else ''), detached=True, stale=stale)
+        bad = structural_mismatch(r)
+        if bad:
+            fail('the serialisation of a detached rule re-resolves to the same pairs', f'detached rule: {bad}' + (f'; {stale}' if stale else ''), detached=True, stale=stale)
+        text = r.cssText
+        back = self.reparse_rule(text, own)
+        if back != want:
+            fail('the serialisation of a detached rule re-resolves to the same pairs',
+                 f'detached rule {text!r} read under the namespaces it carries {own} gives {back}, written as {want}' + (f'; {stale}' if stale else ''),
+                 detached=True, stale=stale)
 
     def roots(self, st, op, pre, outcome, note):
         """observable signatures of the recorded defects in this step: {sheet name: set of root causes}"""
@@ -615,6 +768,26 @@ class Model:
                     fail('the serialisation re-resolves to the same pairs', f'sheet {name}: {r.selectorText!r} written as {want} reads back as {got}; text {text!r}',
                          sheet=name, want=want, got=got, mapping=sorted(m, key=repr), spelling=why)
 
+    def reparse_rule(self, text, namespaces):
+        """pairs of the style rule `text` parsed on its own under the prefix -> URI dict `namespaces` (or the refusal)"""
+        key = (text, tuple(sorted(namespaces.items())))
+        hit = self._reparse.get(key)
+        if hit is not None:
+            return hit
+        import cssutils
+        raising = cssutils.log.raiseExceptions
+        cssutils.log.raiseExceptions = True
+        try:
+            r2 = cssutils.css.CSSStyleRule()
+            r2.cssText = (text, dict(namespaces))
+            hit = rule_pairs(r2)
+        except xml.dom.DOMException as e:
+            hit = [f'<{type(e).__name__}: {e}>']
+        finally:
+            cssutils.log.raiseExceptions = raising
+        self._reparse[key] = hit
+        return hit
+
     def reparse(self, text):
         hit = self._reparse.get(text)
         if hit is not None:
@@ -677,6 +850,9 @@ def classify(clause, op, pre, info):
         pm = pre['map' + info['sheet']]
         if any(p == op[1] and u != op[2] for p, u in pm):
             return 'C15-rebind-prefix-silently-dropped'
+    if info.get('detached') and info.get('stale') and clause.startswith(('a detached rule carries a declaration', 'the serialisation of a detached rule re-resolves')):
+        # the selectors of one detached rule serialise each under its own snapshot of the sheet's namespaces, taken when it was written
+        return 'C15-detached-stale-prefix-snapshots'
     if clause.startswith('the serialisation re-resolves') and info.get('spelling'):
         return SPELLING[info['spelling']]
     for root in ('parse-state', 'setprefix', 'refused-leftover', 'nstext', 'collision', 'attach'):
@@ -793,7 +969,18 @@ def _w_delete_wrong_index():
     return out is None and [r.typeString for r in s.cssRules] == ['NAMESPACE_RULE', 'STYLE_RULE']
 
 
+def _w_stale_snapshots():
+    s = _parse('@namespace p "urn:a"; p|e { left: 0 }')
+    s.namespaces['q'] = 'urn:a'      # urn:a is re-bound to q, p is free
+    s.namespaces['p'] = 'urn:b'
+    r = s.cssRules[-1]
+    r.selectorList.appendSelector('p|f')
+    s.deleteRule(r)
+    return r.selectorText == 'p|e, p|f' and [pairs_of(x) for x in r.selectorList] == [[('urn:a', 'e')], [('urn:b', 'f')]]
+
+
 WITNESS = {
+    'C15-detached-stale-prefix-snapshots': _w_stale_snapshots,
     'C15-mapping-delete-wrong-index': _w_delete_wrong_index,
     'C15-rebind-prefix-silently-dropped': _w_rebind_dropped,
     'C15-refused-sheet-text-leaves-parse-state': _w_parse_state,
@@ -833,11 +1020,19 @@ def sequences(ctx):
         histories.explore(ctx, 'bounded.c15', 'core', [S[2], S[3], S[4]], 3,
                           label='C15 core pool, sequences <= 3 (default namespace + @media; two prefixes, *| and |, comment ahead; logging mode)')
         histories.explore(ctx, 'bounded.c15', 'full', [S[2], S[3], S[4]], 2, label='C15 full pool, sequences <= 2 on the larger seed sheets')
+        histories.explore(ctx, 'bounded.c15', 'core', via_seeds([S[1], S[2], S[3]]), 2,
+                          label=f'C15 core pool, sequences <= 2 on seed sheets whose selectors were written through the DOM (3 sheets x {len(ROUTES)} routes: {", ".join(ROUTES)})')
+        ctx.bounded[-1]['bound'] += (f'; selector provenance: every style rule of the seed sheet re-written through one of {len(ROUTES)} DOM routes before the history starts; '
+                                     'detached-rule clauses (carried declarations, structural reading and reparse of the rule text) evaluated on the slot after every step')
     else:
         histories.explore(ctx, 'bounded.c15', 'full', [S[0], S[1]], 4, label='C15 full pool of namespace operations, sequences <= 4 (empty sheet; one prefix, one namespaced rule)',
                           samples=sample)
         histories.explore(ctx, 'bounded.c15', 'full', [S[2], S[3], S[4]], 3, unmerged_depth=2, label='C15 full pool, sequences <= 3 on the larger seed sheets')
         histories.explore(ctx, 'bounded.c15', 'core', [S[2], S[3], S[4]], 4, label='C15 core pool, sequences <= 4 on the larger seed sheets')
+        histories.explore(ctx, 'bounded.c15', 'core', via_seeds([S[1], S[2], S[3], S[4]]), 3,
+                          label=f'C15 core pool, sequences <= 3 on seed sheets whose selectors were written through the DOM (4 sheets x {len(ROUTES)} routes: {", ".join(ROUTES)})')
+        ctx.bounded[-1]['bound'] += (f'; selector provenance: every style rule of the seed sheet re-written through one of {len(ROUTES)} DOM routes before the history starts; '
+                                     'detached-rule clauses (carried declarations, structural reading and reparse of the rule text) evaluated on the slot after every step')
 
 
 def random_walks(ctx):
